@@ -266,10 +266,13 @@ def cli_cases():
     for n in (0, 1, 3, 42, 255, 256, 300):
         out.append((2, n, "<?php\necho \"out;\";\nexit(%d);\necho \"never\";\n" % n, "out;"))
     out.append((2, 4, "<?php\nob_start();\necho \"buffered;\";\nexit(4);\n", "buffered;"))
+    out.append((1, 0, "<?php\nob_start();\necho \"a;\";\nob_start();\necho \"b;\";\nthrow new Exception(\"nested\");\n", "a;b;"))
     out.append((2, 5, "<?php\nfunction f() { try { exit(5); } finally { echo \"nofinally\"; } }\necho \"a;\";\nf();\n", "a;"))
     for body, e in (("echo \"plain;\";", "plain;"), ("ob_start();\necho \"buffered;\";", "buffered;"),
                     ("try { throw new Exception(\"x\"); } catch (Exception $e) { echo \"c;\"; } finally { echo \"f;\"; }", "c;f;"),
-                    ("function f() { return 1; }\necho f();", "1"), ("", "")):
+                    ("function f() { return 1; }\necho f();", "1"), ("", ""),
+                    ("ob_start();\necho \"a;\";\nob_start();\necho \"b;\";\n$x = ob_get_clean();\necho \"c;\" . $x;", "a;c;b;"),
+                    ("ob_start();\necho \"a;\";\nob_start();\necho \"b;\";\nob_start();\necho \"c;\";", "a;b;c;")):
         out.append((3, 0, "<?php\n" + body + "\n", e))
     return out
 
